@@ -967,7 +967,7 @@ Proof.
     replace (length pre + length (sep_text sp)) with (length (pre ++ sep_text sp)) by (rewrite app_length; reflexivity).
     unfold txt. rewrite nt_tk by assumption. fold txt.
     unfold expect_tk, expect. unfold is_eof. cbn [t_kind]. rewrite tk_not_eof by assumption. cbn [andb].
-    destruct (IH sls (s_after sl) ((pre ++ sep_text sp) ++ txt) fuel v tail) as (toks & Hl & Hm); try assumption; [lia|].
+    destruct (IH sls (s_after sl) ((pre ++ sep_text sp) ++ txt) fuel v tail) as (toks & Hl & Hm); try assumption; [cbn [length] in Hfuel; lia|].
     fold follow in Hl.
     replace (length (pre ++ sep_text sp) + length txt) with (length ((pre ++ sep_text sp) ++ txt))
       by (rewrite (app_length (pre ++ sep_text sp) txt); reflexivity).
@@ -980,6 +980,15 @@ Qed.
 
 (* ------------------------------------------------------------------ the theorem *)
 
+Lemma render_slots_length : forall ts sls,
+  forallb tk_ok ts = true -> slots_ok ts sls = true -> length ts <= length (render_slots ts sls).
+Proof.
+  induction ts as [|t ts IH]; intros [|sl sls] Hok H; cbn [slots_ok] in H; try discriminate;
+    cbn [length render_slots]; [lia|].
+  cbn [forallb] in Hok. bsplit. specialize (IH _ H3 H0). rewrite !app_length.
+  destruct (tk_text_head t (s_inner sl) H2) as (h & r & E & _). rewrite E. cbn [length]. lia.
+Qed.
+
 Theorem lex_render : forall v ts l,
   forallb tk_ok ts = true -> wf_layout ts l = true -> separating ts l = true ->
   lex_view v (render ts l) = Some (map tk_tok ts).
@@ -987,12 +996,17 @@ Proof.
   intros v ts l Hok Hwf Hsep. unfold wf_layout in Hwf. bsplit.
   destruct (lex_loop_render ts (l_slots l) (l_lead l) [] (S (length (render ts l))) v (l_tail l))
     as (toks & Hl & Hm); try assumption.
-  - assert (Hlen : forall ts sls, slots_ok ts sls = true -> length ts <= length (render_slots ts sls)).
-    { clear. induction ts as [|t ts IH]; intros [|sl sls] H; cbn [slots_ok] in H; try discriminate; cbn [length render_slots]; [lia|].
-      bsplit. specialize (IH _ H0). rewrite !app_length.
-      assert (1 <= length (tk_text t (s_inner sl))); [|lia].
-      admit. }
-    admit.
+  - pose proof (render_slots_length ts (l_slots l) Hok H1). unfold render. rewrite !app_length. lia.
   - unfold lex_view, lex, start_cursor, render. cbn [app length] in Hl. unfold render in Hl.
     rewrite Hl. rewrite Hm. reflexivity.
-Admitted.
+Qed.
+
+(* the statement of DESIGN.md section 6, C10: two separating layouts of the same token list are
+   indistinguishable after the lexer, and both are exactly the token list *)
+Theorem lex_layout_invariant : forall v ts l1 l2,
+  forallb tk_ok ts = true ->
+  wf_layout ts l1 = true -> separating ts l1 = true ->
+  wf_layout ts l2 = true -> separating ts l2 = true ->
+  lex_view v (render ts l1) = Some (map tk_tok ts) /\
+  lex_view v (render ts l2) = Some (map tk_tok ts).
+Proof. intros. split; apply lex_render; assumption. Qed.
